@@ -47,7 +47,7 @@ fn gen_gcond(rng: &mut Rng, depth: u32, meta: bool) -> Sx {
     let n = match rng.below(11) {
         0..=3 => Sx::l(vec![Sx::n(1), gen_gcond(rng, depth - 1, meta), gen_gcond(rng, depth - 1, meta)]),
         4..=7 => Sx::l(vec![Sx::n(2), gen_gcond(rng, depth - 1, meta), gen_gcond(rng, depth - 1, meta)]),
-        8 | 9 => Sx::l(vec![Sx::n(3), gen_gcond(rng, depth - 1, meta)]),
+        8 | 9 => { let inner = gen_gcond(rng, depth - 1, meta); if rng.chance(1, 3) { Sx::l(vec![Sx::n(3), Sx::l(vec![Sx::n(3), inner])]) } else { Sx::l(vec![Sx::n(3), inner]) } }
         _ => Sx::l(vec![Sx::n(4), gen_gcond(rng, depth - 1, meta)]),
     };
     if rng.chance(1, 8) { Sx::l(vec![Sx::n(4), n]) } else { n }
@@ -157,6 +157,8 @@ fn pr_gcond(c: &Sx, lay: &mut Rng, ml: bool) -> String {
         0 => c01::pr_cond(c),
         1 => { let a = wrap(c.at(1), lay); let s1 = sep(lay, ml); let s2 = sep(lay, ml); let b = wrap(c.at(2), lay); format!("{}{}&&{}{}", a, s1, s2, b) }
         2 => { let a = wrap(c.at(1), lay); let s1 = sep(lay, ml); let s2 = sep(lay, ml); let b = wrap(c.at(2), lay); format!("{}{}||{}{}", a, s1, s2, b) }
+        // a negation directly in front of another negation (`!!(..)`, `! !(..)`) as well as in front of a parenthesised operand
+        3 if c.at(1).at(0).as_u() == 3 && lay.chance(1, 2) => format!("!{}{}", if lay.chance(1, 4) { " " } else { "" }, pr_gcond(c.at(1), lay, ml)),
         3 => format!("!{}({}{}{})", if lay.chance(1, 4) { " " } else { "" }, opt(lay, ml), pr_gcond(c.at(1), lay, ml), opt(lay, ml)),
         _ => format!("({}{}{})", opt(lay, ml), pr_gcond(c.at(1), lay, ml), opt(lay, ml)),
     }
